@@ -302,7 +302,24 @@ func (r *renderer) stmt(s Stmt) {
 	r.pre()
 	p := s.pos()
 	switch x := s.(type) {
+	case *FuncStmt:
+		p.Line = r.line
+		r.funcBody(x.F, "function "+x.Name)
+		p.EndLine = x.F.EndLine
 	case *Local:
+		if fe, ok := x.Exprs0().(Func); ok && len(x.Exprs) > 1 {
+			// local a, b = function(...)  <body>  end, e2
+			p.Line = r.line
+			params := append([]string(nil), fe.F.Params...)
+			if fe.F.IsVararg {
+				params = append(params, "...")
+			}
+			fe.F.Line = r.stmtLine("local "+strings.Join(x.Names, ", ")+" = function("+strings.Join(params, ", ")+")", false)
+			r.block(fe.F.Body)
+			fe.F.EndLine = r.stmtLine("end, "+r.exprs(x.Exprs[1:]), true)
+			p.EndLine = fe.F.EndLine
+			return
+		}
 		if len(x.Exprs) == 1 {
 			if fe, ok := x.Exprs[0].(Func); ok {
 				if len(x.Names) != 1 {
